@@ -353,6 +353,35 @@ def emit_monitor(prefix, members, methods, comment):
     return '\n'.join(L) + '\n'
 
 
+def thread_skeletons(cpp_src):
+    """per worker thread function of File.cpp: outer try/catch(...) present, what the catch-all does, inner catch of the
+    library Exception, and whether end of stream is declared on the normal path.  Purely textual."""
+    src = strip_comments(cpp_src)
+    out = []
+    for name, consumer in (('uncompressedFileReadThread', 'm_readWriteQueue'), ('uncompressedFileWriteThread', 'm_uncompressedFile'),
+                           ('compressedFileReadThread', 'm_uncompressedFile'), ('compressedFileWriteThread', None)):
+        m = re.search(r'void\s+File::%s\s*\(\s*File\s*\*\s*file\s*\)\s*\{' % name, src)
+        if not m:
+            out.append((name, False, False, False, False, False))
+            continue
+        depth, i = 1, m.end()
+        while depth and i < len(src):
+            depth += {'{': 1, '}': -1}.get(src[i], 0)
+            i += 1
+        body = ' '.join(src[m.end():i - 1].split())
+        outer = body.startswith('try {')
+        mc = re.search(r'\} catch \( \.\.\. \) \{(.*)\}\s*$', body.replace('(...)', '( ... )'))
+        catch_all = mc is not None
+        handler = mc.group(1) if mc else ''
+        stores = 'std::current_exception()' in handler
+        sets_eof_in_handler = consumer is not None and ('file->%s.setFileSize(' % consumer) in handler
+        main = body[:mc.start()] if mc else body
+        sets_eof_normal = consumer is not None and ('file->%s.setFileSize(' % consumer) in main
+        inner = re.search(r'catch \( Vector::BLF::Exception & \) \{ file->m_\w+ThreadRunning = false; \}', main.replace('(Vector::BLF::Exception &)', '( Vector::BLF::Exception & )')) is not None
+        out.append((name, outer and catch_all, stores, sets_eof_in_handler, sets_eof_normal, inner))
+    return out
+
+
 def write_if_changed(path, text):
     if os.path.exists(path) and open(path).read() == text:
         return
@@ -367,6 +396,14 @@ def main():
     write_if_changed(os.path.join(gen, 'Queue.v'), emit_monitor('oq', qm, qmeth, 'ObjectQueue.{h,cpp}'))
     um, umeth = translate_class(os.path.join(src, 'UncompressedFile.h'), os.path.join(src, 'UncompressedFile.cpp'), 'UncompressedFile')
     write_if_changed(os.path.join(gen, 'Sync.v'), emit_monitor('uf', um, umeth, 'UncompressedFile.{h,cpp} (bodies with loops are TUnsupported; waits and notifications are what is used)'))
+    sk = thread_skeletons(open(os.path.join(src, 'File.cpp')).read())
+    b = lambda x: 'true' if x else 'false'
+    L = ['(* generated by translator/sync2coq.py — worker thread functions of File.cpp.  Do not edit. *)',
+         'From Coq Require Import String List Bool.', 'Import ListNotations.', 'Local Open Scope string_scope.', '',
+         '(* name, outer try/catch(...), handler stores the exception, handler declares end of stream, normal path declares end of stream, inner catch of the library Exception stops the loop *)',
+         'Definition thread_skeletons : list (string * bool * bool * bool * bool * bool) :=',
+         '  [' + ';\n   '.join('(%s, %s, %s, %s, %s, %s)' % (coqstr(n), b(a), b(c), b(d), b(e), b(f)) for n, a, c, d, e, f in sk) + '].', '']
+    write_if_changed(os.path.join(gen, 'Threads.v'), '\n'.join(L) + '\n')
     json.dump({'oq': {'members': qm, 'methods': [{k: v for k, v in m.items()} for m in qmeth]},
                'uf': {'members': um, 'methods': [{k: v for k, v in m.items()} for m in umeth]}}, open(jout, 'w'), indent=1)
 
